@@ -304,6 +304,7 @@ class Evaluator:
         self.by_shape = {}  # (n, req, bind, script) -> [(core scenario, modules whose body ran)]
         self.verdict = {}   # key -> None | (class, detail)
         self.drift = set()
+        self.events = {}    # key -> recorded status events (only with the module-events hook)
         self.tlc_given_runs = 0
         self.states = 0
         self.transitions = 0
@@ -376,6 +377,8 @@ class Evaluator:
                 retry.append(i)
             self.verdict[k] = v
             self.evals += len(rendered[i]["steps"])
+            if res.get(i) and "events" in res[i]:
+                self.events[k] = res[i]["events"]
             if v is None and identity_drift(self.exp[k], rendered[i]["steps"], res[i]):
                 self.drift.add(k)
         if retry:
@@ -470,6 +473,52 @@ def detail_of(ev, sc, example=None):
     if example is not None:
         d["found_in"] = example
     return d
+
+
+def validate_status_traces(ev, ck, keys):
+    """Mode B: the recorded status(module, from, to) events of the given scenarios are validated against the
+    status machine and stack discipline of the specification (spec/modules/ModulesTrace.tla).  A rejected trace
+    is an internal-state mismatch, reported as MODEL-DRIFT (the property is stated on observable behaviour)."""
+    TRACE = os.path.join(vlib.SPEC, "modules", "ModulesTrace.tla")
+    todo = [k for k in keys if k in ev.events]
+    validated = events = 0
+    states = 0
+    guard = 0
+    while todo and guard < 6:
+        guard += 1
+        path = os.path.join(W, f"trace-{os.getpid()}.ndjson")
+        owner = []          # event index (1-based) -> scenario key
+        with open(path, "w") as f:
+            for k in todo:
+                c = json.loads(k)
+                f.write(json.dumps({"ev": "reset", "n": c["n"], "req": c["req"]}) + "\n")
+                owner.append(k)
+                for name, frm, to in ev.events[k]:
+                    m = int(name[1:]) if name[1:].isdigit() else 0
+                    f.write(json.dumps({"ev": "st", "m": m, "from": frm, "to": to}) + "\n")
+                    owner.append(k)
+        r = vlib.run_tlc(TRACE, "ModulesTrace.cfg", workers=1, dfs=True, env_extra={"C17_TRACE": path}, timeout=1800)
+        os.unlink(path)
+        states += r["distinct"]
+        rej = [o for t, o in r["tagged"] if t == "REJECTED"]
+        if r["ok"]:
+            validated += len(todo)
+            events += len(owner)
+            break
+        if not rej:
+            vlib.log(r["raw_tail"])
+            raise vlib.ToolError("trace validation failed without a rejected event")
+        at = rej[0]["at"]
+        bad = owner[at - 1]
+        i = todo.index(bad)
+        validated += i
+        vlib.log(f"MODEL-DRIFT: recorded module status transitions leave the status machine of Modules.tla at "
+                 f"{json.dumps(rej[0]['event'])} in scenario {bad}")
+        ck.drift += 1
+        todo = todo[i + 1:]
+    ck.cov["status_traces_validated"] = validated
+    ck.cov["status_trace_states"] = states
+    return validated
 
 
 def coverage_check(raw_tail, ck):
@@ -572,6 +621,14 @@ def run(tier, replay=None):
     ck.drift += len(ev.drift)
 
     rnd = random.Random(vlib.seed())
+    if ev.events:
+        pool = sorted(k for k in ev.events if k in scen and ev.verdict.get(k) is None)
+        sample = rnd.sample(pool, min(len(pool), 600 if tier == "quick" else 6000))
+        validate_status_traces(ev, ck, sample)
+    else:
+        ck.cov["status_traces_validated"] = 0
+        ck.assumptions.append("mode B (status events validated against ModulesTrace.tla) is off: boa_engine::verif::take_module_events "
+                              "is not in /repo (work/proposals/C17-hook/hook.patch not applied)")
     for sc in rnd.sample(allsc, min(3, len(allsc))):
         e = ev.exp[key(sc)]
         ck.sample({"scenario": sc, "expected_trace": [ev_line(x) for x in e["out"]],
